@@ -28,7 +28,7 @@ func newBytesByteTupleFromTuple(t Tuple) (BytesByteTuple, bool) {
 	m := NewTupleMatcher(
 		map[string]Matcher{
 			"@":           MatchInt(func(i int) { at = i }),
-			BytesByteAttr: MatchInt(func(i int) { byteval = byte(i) }),
+			BytesByteAttr: MatchIntIn(0, 0xFF, func(i int) { byteval = byte(i) }),
 		},
 		Lit(EmptyTuple),
 	)
@@ -185,7 +185,7 @@ func (t BytesByteTuple) Map(f func(Value) (Value, error)) (Tuple, error) { //nol
 	if at, ok := at.(Number); ok {
 		if at, is := at.Int(); is {
 			if byteval, ok := byteval.(Number); ok {
-				if byteval, is := byteval.Int(); is {
+				if byteval, is := byteval.Int(); is && 0 <= byteval && byteval <= 0xFF {
 					return NewBytesByteTuple(at, byte(byteval)), nil
 				}
 			}
